@@ -45,14 +45,45 @@ THEOREMS = [
     (M, "C02.ini_single_record_partial",
      "ini: getNext at `key=value` followed by newline/end (key without = and newline, not starting with [ ; # or white-space) "
      "is the entity with exactly that key span and value span"),
+    (M, "C02.roundtrip_ini_partial",
+     "ini: `[sec]\\n` followed by ANY list of safe records printed `key=value\\n` walks to exactly the section entry, one "
+     "white-space entry, and per record the entity (exact key/value spans, blanks kept) + white-space entry; views = records; no junk"),
+    (M, "C02.roundtrip_inc_partial",
+     "inc: ANY list of safe records printed `#define KEY value\\n` (`#define KEY\\n` for an empty value) walks to exactly the "
+     "entities (key span, value span after the one blank) + one-newline white-space entries; views = records; no junk"),
+    (M, "C02.roundtrip_inc_absent_val_span",
+     "inc: for an empty value the `val` group is absent: value span is Python's (-1, -1); otherwise the text after the blank"),
+    (M, "C02.roundtrip_dtd_partial",
+     "dtd: ANY list of safe records printed `<!ENTITY key \"value\">\\n` walks to exactly the entities (key span, value span = "
+     "quoted text without the quotes) + white-space entries; views = records; no junk"),
+    (M, "C02.roundtrip_properties_comments_partial",
+     "properties: records that may each carry one preceding `# text\\n` comment line: walk = entities with pre-comment span = the "
+     "comment line without its newline (+ white-space entries); views = key, raw, value, comment value ` text`; no junk "
+     "(first comment must not contain License: that case is license_standalone_properties)"),
+    (M, "C02.attached_comment_span", "properties: pre-comment span / full start / entity start of an entity with an attached comment"),
+    (M, "C02.attached_comment_val", "OffsetComment.val of a one-line `# text` comment strips exactly one character (the `#`)"),
+    (M, "C02.garbage_local_properties_partial",
+     "properties: records, ONE inert garbage line g (no = : # ! newline, not starting with white-space), records: the walk is "
+     "the records' entries plus exactly one junk entry whose text is `g\\n`; all records recovered unchanged"),
+    (M, "C02.po_single_record_partial",
+     "po: getNext at `msgid \"K\"\\nmsgstr \"V\"\\n` (K, V without quote, backslash, newline; not followed by a continuation "
+     "fragment) is the entity with key span `msgid \"K\"`, value span `msgstr \"V\"`; one fragment each; eval = K resp. V; view"),
 ]
 PARTIAL = [
-    "roundtrip_properties_partial / props_single_record: only records with safe keys (no # ! = : and no white-space) and safe "
-    "values (no backslash, no newline, blank-free ends), separator `=`, one newline after each record; escapes in values are "
-    "covered by props_unescape_is_spec, but spans of values with continuation lines, comments, other separators and layouts "
-    "are covered by the differential harness only",
-    "ini_single_record_partial: single record only; dtd, inc, po round trips are differential only",
-    "garbage locality (junk = exactly the garbage) is differential only for all formats",
+    "roundtrip_properties_partial / props_single_record / roundtrip_properties_comments_partial: only records with safe keys "
+    "(no # ! = : and no white-space) and safe values (no backslash, no newline, blank-free ends), separator `=`, one newline "
+    "after each record, at most ONE one-line `# ` comment per record; escapes in values are covered by props_unescape_is_spec, "
+    "but spans of values with continuation lines, multi-line / `!` comments, other separators and layouts are covered by the "
+    "differential harness only",
+    "roundtrip_ini_partial: one section header, records `key=value`, single newlines; no comments / blank lines / CRLF",
+    "roundtrip_inc_partial: `#define KEY value` with ONE blank, ASCII `\\w` keys, single newlines (no blank lines, so the "
+    "`#filter emptyLines` state is not exercised); no comments, no other instructions",
+    "roundtrip_dtd_partial: double-quoted values without `\"` and `&`, ASCII names, one blank between the parts, single "
+    "newlines; no comments, no parameter entities, no BOM; values with `&` need html.unescape (external)",
+    "po_single_record_partial: ONE record with one fragment per string list, no escapes, no msgctxt, no comments; lists of PO "
+    "records are differential only",
+    "garbage_local_properties_partial: properties only, one garbage line between plain safe records; garbage locality for "
+    "the other formats, with comments, and for the harness' whole garbage family is differential only",
     "license_standalone_ini needs the extra hypothesis that the text at the offset is not `[` (true for every comment, not proved)",
     "Fluent and Android: parsing is done by fluent.syntax / expat+minidom which are not modelled; decided by the printer->real "
     "parser->expected-records oracle only (plus the fluentwalk correspondence for the white-space/junk trimming)",
@@ -545,7 +576,9 @@ def android_value(rng):
             pieces.append(rng.choice(AND_ENT))
     raw = "".join(p[0] for p in pieces).replace("]]>", "]] >")
     val = "".join(p[1] for p in pieces).replace("]]>", "]] >")
-    assert ref_xml_unescape(raw) == val
+    if ref_xml_unescape(raw) != val:
+        # the ']]>' guard changed one side only (e.g. ']]' followed by '&gt;'): draw again
+        return android_value(rng)
     return raw, val, 0
 
 
@@ -588,6 +621,12 @@ FREE = {   # a standalone comment block that must not attach to the following re
     "properties": "# free comment\n\n", "dtd": "<!-- free comment -->\n\n", "ini": "; free comment\n\n", "inc": "# free comment\n\n",
     "po": "# free comment\n\n\n", "ftl": "## group comment\n\n", "android": "<!-- free comment -->\n\n  ",
 }
+FREE2 = {  # the same, but the separating "blank" line holds only spaces / a tab: the white-space between the comment and the
+    # next record has more than one newline and no two ADJACENT newlines -> the comment must still be standalone.
+    # (.inc has no such layout: its white-space is `\n+`, a line of blanks there is junk.  Fluent: not applicable.)
+    "properties": "# free comment\n  \n", "dtd": "<!-- free comment -->\n  \n", "ini": "; free comment\n\t\n",
+    "po": "# free comment\n \n\t\n", "android": "<!-- free comment -->\n  \n  ",
+}
 LICENSE_OFFSET = {"properties": 1, "dtd": 2, "ini": 2, "po": 2}    # comment start offsets below this are claimed
 PRINT = {"properties": print_props, "dtd": print_dtd, "ini": print_ini, "inc": print_inc, "po": print_po, "ftl": print_ftl,
          "android": print_android}
@@ -618,20 +657,23 @@ def layouts(fmt):
     """(name, dict) list: the fixed layouts of the bounded-exhaustive part"""
     if fmt == "properties":
         return [dict(gaps=["\n"], end="\n"), dict(gaps=["\n\n"], end="", sep=" = ", trail="  "), dict(gaps=["\n \n"], end="\n\n", sep=":", indent="  "),
-                dict(gaps=["\n", "\n\n" + FREE[fmt]], end="\n", sep="\t=\t", trail="\t"), dict(lead="\n", gaps=["\n"], end="", sep=" :")]
+                dict(gaps=["\n", "\n\n" + FREE[fmt]], end="\n", sep="\t=\t", trail="\t"), dict(lead="\n", gaps=["\n"], end="", sep=" :"),
+                dict(gaps=["\n" + FREE2[fmt], "\n \n" + FREE2[fmt] + "\t"], end="\n")]
     if fmt == "dtd":
         return [dict(gaps=["\n"], end="\n"), dict(gaps=["\n\n"], end="", w1="\n  ", w2="\t", w3=" ", cws=" "), dict(gaps=[""], end="", cws=""),
-                dict(gaps=["\n", "\n\n" + FREE[fmt]], end="\n", q="'"), dict(lead="\ufeff", gaps=["\n"], end="\n"), dict(lead="\n", gaps=["\n"], end="")]
+                dict(gaps=["\n", "\n\n" + FREE[fmt]], end="\n", q="'"), dict(lead="\ufeff", gaps=["\n"], end="\n"), dict(lead="\n", gaps=["\n"], end=""),
+                dict(gaps=["\n" + FREE2[fmt], " " + FREE2[fmt] + "  "], end="\n")]
     if fmt == "ini":
         return [dict(gaps=["\n"], end="\n"), dict(gaps=["\n\n"], end=""), dict(head="[Strings]\n", gaps=["\n"], end="\n"),
-                dict(gaps=["\n", "\n\n" + FREE[fmt]], end="\n", indent="  "), dict(lead="\n", gaps=["\n"], end="")]
+                dict(gaps=["\n", "\n\n" + FREE[fmt]], end="\n", indent="  "), dict(lead="\n", gaps=["\n"], end=""),
+                dict(gaps=["\n" + FREE2[fmt], "\n\n" + FREE2[fmt]], end="\n")]
     if fmt == "inc":
         return [dict(gaps=["\n"], end="\n"), dict(gaps=["\n"], end="", w1="  ", w2="\t"),
                 dict(head="#filter emptyLines\n\n", gaps=["\n\n", "\n"], end="\n\n#unfilter emptyLines\n"),
                 dict(head="#filter emptyLines\n", gaps=["\n\n" + FREE[fmt], "\n\n\n"], end="\n")]
     if fmt == "po":
         return [dict(gaps=["\n\n"], end="\n"), dict(gaps=["\n"], end=""), dict(gaps=["\n\n\n" + FREE[fmt], "\n\n"], end="\n\n"),
-                dict(lead="\n", gaps=["\n\n"], end="\n")]
+                dict(lead="\n", gaps=["\n\n"], end="\n"), dict(gaps=["\n" + FREE2[fmt], "\n\n" + FREE2[fmt]], end="\n")]
     if fmt == "ftl":
         return [dict(gaps=["\n"], end="\n"), dict(gaps=["\n\n"], end="", eq="="), dict(gaps=["\n\n" + FREE[fmt], "\n"], end="\n", eq="  =  "),
                 dict(lead="\n", gaps=["\n\n\n"], end="\n\n")]
@@ -639,7 +681,8 @@ def layouts(fmt):
         H = '<?xml version="1.0" encoding="utf-8"?>\n<resources>'
         return [dict(head=H + "\n  ", gaps=["\n  "], end="\n</resources>\n"), dict(head="<resources>", gaps=[""], end="</resources>", cws=""),
                 dict(head=H + "\n\n  ", gaps=["\n\n  ", "\n  " + FREE[fmt]], end="\n\n</resources>", cws=" "),
-                dict(head='<resources xmlns:x="urn:x">\n', gaps=["\n"], end="\n</resources>\n", cws="\n")]
+                dict(head='<resources xmlns:x="urn:x">\n', gaps=["\n"], end="\n</resources>\n", cws="\n"),
+                dict(head=H + "\n  ", gaps=["\n  " + FREE2[fmt]], end="\n</resources>\n")]
     raise KeyError(fmt)
 
 
@@ -647,15 +690,15 @@ def rand_layout(rng, fmt):
     lay = dict(rng.choice(layouts(fmt)))
     if fmt == "properties":
         lay.update(sep=rng.choice(PROPS_SEPS), trail=rng.choice(["", "", " ", "\t "]), indent=rng.choice(["", "", "  "]))
-        lay["gaps"] = [rng.choice(["\n", "\n\n", "\n  \n", "\n\n" + FREE[fmt]]) for _ in range(3)]
+        lay["gaps"] = [rng.choice(["\n", "\n\n", "\n  \n", "\n\n" + FREE[fmt], "\n" + FREE2[fmt]]) for _ in range(3)]
     elif fmt == "dtd":
         lay.update(w1=rng.choice([" ", "\n", "\t "]), w2=rng.choice([" ", "\n  "]), w3=rng.choice(["", " ", "\n"]),
                    cws=rng.choice(["\n", " ", "", "\n  "]))
-        lay["gaps"] = [rng.choice(["\n", "\n\n", "", " ", "\n\n" + FREE[fmt]]) for _ in range(3)]
+        lay["gaps"] = [rng.choice(["\n", "\n\n", "", " ", "\n\n" + FREE[fmt], "\n" + FREE2[fmt]]) for _ in range(3)]
     elif fmt == "ini":
-        lay["gaps"] = [rng.choice(["\n", "\n\n", "\n\n" + FREE[fmt]]) for _ in range(3)]
+        lay["gaps"] = [rng.choice(["\n", "\n\n", "\n\n" + FREE[fmt], "\n" + FREE2[fmt]]) for _ in range(3)]
     elif fmt == "po":
-        lay["gaps"] = [rng.choice(["\n", "\n\n", "\n\n\n", "\n\n" + FREE[fmt]]) for _ in range(3)]
+        lay["gaps"] = [rng.choice(["\n", "\n\n", "\n\n\n", "\n\n" + FREE[fmt], "\n" + FREE2[fmt]]) for _ in range(3)]
     elif fmt == "ftl":
         lay["gaps"] = [rng.choice(["\n", "\n\n", "\n\n" + FREE[fmt]]) for _ in range(3)]
     return lay
@@ -1097,6 +1140,22 @@ def probes(out):
     notes.append("dtd file that is a lone byte-order mark -> junk %r (an empty Junk entry)" % (r["junk"],))
     r = I.impl_entities("dtd", "<!-- \U0001F600 -->\n<!ENTITY a \"b\">")
     notes.append("dtd comment with an astral character -> entities %r junk %r (comment class ends at U+FFFD)" % (r["ents"], r["junk"]))
+    # excluded points of the round-2 list theorems (negation witnesses in Props/C02.lean)
+    def both(fmt, text):
+        try:
+            r = I.impl_entities(fmt, text)
+            return (r["ents"], r["junk"])
+        except Exception as e:      # noqa
+            return "raised %s" % type(e).__name__
+    notes.append("properties garbage line containing `#` between records `a=b\\nx # y\\nc=d\\n` -> %r (junk ends at the `#`; "
+                 "`# y` becomes the pre-comment of c: the comment regex is not anchored at a line start)" % (both("properties", "a=b\nx # y\nc=d\n"),))
+    notes.append("properties garbage line starting with a blank `a=b\\n x\\nc=d\\n` -> %r" % (both("properties", "a=b\n x\nc=d\n"),))
+    notes.append("ini key containing `=` `[S]\\na=b=c\\n` -> %r (key ends at the first `=`)" % (both("ini", "[S]\na=b=c\n"),))
+    notes.append("inc key with a non-word character `#define a-b x\\n` -> %r (entity `a`, rest of the line junk)" % (both("inc", "#define a-b x\n"),))
+    notes.append("inc empty value printed with the blank `#define b \\n` -> %r" % (both("inc", "#define b \n"),))
+    notes.append("dtd key starting with a digit `<!ENTITY 1a \"x\">\\n` -> %r" % (both("dtd", '<!ENTITY 1a "x">\n'),))
+    notes.append("po quoted text on the line after msgstr `msgid \"a\"\\nmsgstr \"x\"\\n\"yz\"\\n` -> %r (continuation fragment)" % (
+        both("po", 'msgid "a"\nmsgstr "x"\n"yz"\n'),))
     out.notes += notes
 
 
